@@ -1172,6 +1172,9 @@ func (s *sess) causeKey(key uint64, m *mblob, detail string) string {
 		return "empty-blob"
 	case s.rewrittenUnchanged[key]:
 		return s.rewriteKey()
+	case s.compacted && s.calgo == 1 && s.orderHazard:
+		// (before the TTL causes: the truncation behind this one hits every blob, whatever its TTL)
+		return "algo1:largest-key-not-last-record"
 	case ref != nil && ref.ttlMin > 0 && ttlMinutes(s.volTtl) != ref.ttlMin:
 		return "blob-ttl-differs-from-volume-ttl"
 	case ref != nil && ref.ttlMin > 0 && ref.LM != 0 && ref.appendAt.Unix()-int64(ref.LM) > 30:
